@@ -21,7 +21,7 @@ def script(sc):
         sc.do_edit()
     sc.commit_all("hist")
     for k in range(rng.choice([1, 2])):
-        op = rng.choice(["rebase", "rebase", "cherry", "partial-range", "dropped-duplicate"])
+        op = rng.choice(["rebase", "rebase", "cherry", "partial-range", "dropped-duplicate", "partial-cherry"])
         sc.commit_all("pre")
         if op == "rebase":
             sc.op_rebase(kind=rng.choice(["plain", "plain", "onto", "interactive"]))
@@ -29,6 +29,8 @@ def script(sc):
             sc.op_cherry_pick(kind=rng.choice(["one", "range"]))
         elif op == "dropped-duplicate":
             dropped_duplicate_rebase(sc)
+        elif op == "partial-cherry":
+            partial_precondition_cherry_pick(sc)
         else:
             partial_precondition_rebase(sc)
         sc.after_step("op %d %s" % (k, op))
@@ -71,6 +73,40 @@ def partial_precondition_rebase(sc):
         sc.g("checkout", "-q", "-f", base)
     else:
         sc.g("checkout", "-q", base); sc.g("merge", "-q", "--ff-only", feat)
+
+
+def partial_precondition_cherry_pick(sc):
+    """A cherry-picked range for which the shortcut's precondition fails for an EARLIER pair but holds for the LAST one: the last
+    source commit inserts two lines at the top of file F (plus an agent edit elsewhere), and the target branch already contains exactly
+    those two lines (a partial back-port). Picking the first commit gives a different F blob than its source, picking the last one
+    gives the same blob as its source."""
+    rng = sc.rng
+    base = sc.current_branch() or "main"
+    src = sc.new_branch_name("pc")
+    files = [f for f in sc.files if f in sc.tracked() and sc.read(f)]
+    if len(files) < 2:
+        return sc.op_cherry_pick(kind="range")
+    F, G = rng.sample(files, 2)
+    who = rng.choice(sc.sessions)
+    sc.g("checkout", "-q", "-b", src)
+    n = rng.choice([2, 3])
+    for i in range(n - 1):
+        lines = sc.read(F)
+        pos = rng.randrange(max(1, len(lines) // 2), len(lines) + 1)      # in the lower half of F
+        sc.pre_ai(who, F); lines[pos:pos] = sc.new_lines(who, rng.choice([1, 2]), lines); sc.write(F, lines); sc.post_ai(who, F)
+        sc.log.append(["edit", F, who, "ins@%d (lower half)" % pos])
+        sc.commit_all("pc%d: agent lines in the lower half of F" % i)
+    top = [sc.fresh("human", hostile=False), sc.fresh("human", hostile=False)]
+    sc.write(F, top + sc.read(F))
+    sc.do_edit(author=who, f=G, kinds=["ins"])
+    sc.commit_all("pc-last: two lines at the top of F and an agent edit of G")
+    sc.g("checkout", "-q", base)
+    sc.write(F, top + sc.read(F))
+    sc.commit_all("upstream already has the two top lines (partial back-port)")
+    sc.g("cherry-pick", "%s~%d..%s" % (src, n, src))
+    sc.ops.append("cherry-pick:partial-precondition:%d" % n)
+    if sc.in_progress() or sc.unmerged():
+        sc.finish_in_progress("cherry-pick", decide="abort")
 
 
 def dropped_duplicate_rebase(sc):
@@ -154,6 +190,39 @@ def extra_lines(sa, pa, sb):
     return out
 
 
+def deleted_later_only(sc, c, commits, pa, pb):
+    """True when the only difference between the projected views is: the shortcut's note lists added lines (same file, same session) that
+    the replay's note omits, and the content of every such line is gone from the last commit of the rewritten range."""
+    try:
+        fa, ha, ba = pa
+        fb, hb, bb = pb
+    except (TypeError, ValueError):
+        return False
+    if ba != bb:
+        return False
+    from ..engine import key
+    last = commits[-1]
+    if c == last:
+        return False
+    found = False
+    for f in set(fa) | set(fb):
+        da, db = fa.get(f, {}), fb.get(f, {})
+        for h in set(da) | set(db):
+            la, lb = set(da.get(h, [])), set(db.get(h, []))
+            if lb - la:
+                return False
+            extra = la - lb
+            if not extra:
+                continue
+            here = sc.show_lines(c, f) or []
+            end = {key(l) for l in (sc.show_lines(last, f) or [])}
+            for i in extra:
+                if not (1 <= i <= len(here)) or key(here[i - 1]) in end:
+                    return False
+            found = True
+    return found
+
+
 def run_case(case):
     seed, index, flags_off = case["seed"], case["index"], case.get("flags_off", [])
     prng = random.Random("%s:C15p:%s" % (seed, index))
@@ -197,7 +266,12 @@ def run_case(case):
                 sb, pb = note_views(b, c)
                 a.stats["rewritten_commits_compared"] += 1
                 extra = extra_lines(sa, pa, sb)
-                if pa != pb:
+                if pa != pb and not strict_ok and deleted_later_only(a, c, commits, pa, pb):
+                    # finding D16, second face: the full replay works backwards from the state of the LAST commit of the range, so an
+                    # agent line that commit k adds and a later commit of the same range deletes again is missing from its note for
+                    # commit k; the copied note (rightly) lists it. Counted while D16 is open, like the strict differences.
+                    a.stats["projected_difference_tolerated_D16(line deleted later in the range)"] += 1
+                elif pa != pb:
                     a.violation("C15/projected-notes-differ", commit=c, shortcut=pa, replay=pb)
                 elif extra:
                     # lines the commit does not add, listed by the shortcut's note but not by the replay's (the replay may list MORE than
